@@ -488,6 +488,16 @@ fn try_adjust_price_with_max_deviation_factor(
     adjusted_price
 }
 
+/// Verification hook (runtime monitors in `/verif`): public forwarding wrapper only.
+#[cfg(gmsol_verif)]
+pub fn verif_try_adjust_price_with_max_deviation_factor(
+    factor: &u128,
+    price: &gmsol_utils::Price,
+    ref_price: Option<&Decimal>,
+) -> Option<gmsol_utils::Price> {
+    try_adjust_price_with_max_deviation_factor(factor, price, ref_price)
+}
+
 pub(crate) struct MaxAgeValidator {
     max_age: u32,
 }
